@@ -75,10 +75,25 @@ func c15(r *rep.Run) {
 	for _, t := range g3.UpTo([]term.Ty{X}, aliasMax) {
 		progs = append(progs, t)
 	}
+	// named (call syntax) builtins of every arity, mixed with infix operators
+	{
+		nb := &term.Alphabet{Leaves: map[term.Ty][]*term.Term{X: {{K: term.KVar, Name: "a", Ty: X}, {K: term.KConst, Val: int64(1), Lit: "1", Ty: X}}}}
+		nb.Ops = append(nb.Ops, sig("+", X, X, X), sig("&&", X, X, X), sig("==", X, X, X),
+			sig("eq", X, X, X), sig("eq", X, X, X, X), sig("eq", X, X, X, X, X), sig("and", X, X, X, X), sig("or", X, X, X), sig("add", X, X, X, X), sig("mul", X, X, X),
+			sig("between", X, X, X, X), sig("not", X, X), sig("mod", X, X, X), sig("xor", X, X, X, X), sig("h", X))
+		gnb := term.NewGen(nb)
+		nbMax := 6
+		if r.Thorough() {
+			nbMax = 7
+		}
+		for _, t := range gnb.UpTo([]term.Ty{X}, nbMax) {
+			progs = append(progs, t)
+		}
+	}
 	// registered variables that share their name with an operator or keyword
 	{
 		named := &term.Alphabet{Leaves: map[term.Ty][]*term.Term{X: {
-			{K: term.KVar, Name: "version", Ty: X}, {K: term.KVar, Name: "mod", Ty: X}, {K: term.KVar, Name: "in", Ty: X}, {K: term.KVar, Name: "date", Ty: X}, {K: term.KConst, Val: int64(1), Lit: "1", Ty: X}}}}
+			{K: term.KVar, Name: "version", Ty: X}, {K: term.KVar, Name: "td_date", Ty: X}, {K: term.KVar, Name: "in", Ty: X}, {K: term.KVar, Name: "date", Ty: X}, {K: term.KConst, Val: int64(1), Lit: "1", Ty: X}}}}
 		for _, op := range []string{"+", "<", "&&"} {
 			named.Ops = append(named.Ops, sig(op, X, X, X))
 		}
@@ -106,7 +121,7 @@ func c15(r *rep.Run) {
 		h.Register("g", func(a []interface{}) (interface{}, error) { return a[len(a)-1], nil })
 		h.Register("h", func(a []interface{}) (interface{}, error) { return int64(7), nil })
 	}
-	vars := []term.VarDecl{{Name: "a", Ty: X}, {Name: "b", Ty: X}, {Name: "version", Ty: X}, {Name: "mod", Ty: X}, {Name: "in", Ty: X}, {Name: "date", Ty: X}}
+	vars := []term.VarDecl{{Name: "a", Ty: X}, {Name: "b", Ty: X}, {Name: "version", Ty: X}, {Name: "td_date", Ty: X}, {Name: "in", Ty: X}, {Name: "date", Ty: X}}
 	bindings := []c15fetch{{int64(3), int64(2)}, {true, false}, {int64(0), int64(5)}, {"s", int64(1)}}
 	var renderings, nontrivial, evals int64
 	done := r.ParallelFor(len(progs), func(w, i int) {
